@@ -168,6 +168,8 @@ def main():
         muts = []
         sd = "/verif/seeded"
         for d in sorted(os.listdir(sd)):
+            if not os.path.isdir(os.path.join(sd, d)):
+                continue
             meta = json.load(open(os.path.join(sd, d, "meta.json")))
             muts.append(("seeded-" + d, meta["expected_props"], os.path.join(sd, d, "patch.diff"), None, None))
     for name, props, f, old, new in muts:
